@@ -21,7 +21,8 @@ RULE = ('(a) totality: phredToFastqHeaderSafeQualities / fastqHeaderSafeQualitie
         'phred range, library names over [A-Za-z0-9_-] of length 1..80 and all accepted header variants are serialised by the demultiplexer, '
         'stored as BAM query names, read back and decoded by QueryNameFlagger; (c) length sweep: library names chosen so that the header '
         'length crosses 240..270. Non-trivial = decoded pair with a UMI or ligation quality string containing a phred >= 52 or a header '
-        'within 15 characters of the limit; distinct = distinct (strategy, library, pair id).')
+        'within 15 characters of the limit; distinct = distinct (strategy, library, pair id).'
+        ' Plus 0-based cell indices, library names ending in 1 / 2 / 12, one library whose later reads exceed the limit, and no header above 254 characters may leave the demultiplexer.')
 ASSUMPTIONS = ['pysam BAM writing/reading is the storage; its own refusal of names > 254 characters counts as a loud refusal',
                'expected field values come from the raw reads through the hand-written layout table and the independent 52-letter code']
 MIN_NONTRIVIAL = {'quick': 300, 'thorough': 30000}
